@@ -137,6 +137,8 @@ def run_container(ctx, prop: str, cls: str) -> Result:
         RC.check_record_deletion_joint(ctx, res, cls)
     with res.guard("RC.check_id_monotone(ctx, res, cls)"):
         RC.check_id_monotone(ctx, res, cls)
+    with res.guard("RC.check_keyed_memo_invalidation(ctx, res, cls)"):
+        RC.check_keyed_memo_invalidation(ctx, res, cls)
     with res.guard("RC.check_record_counters(ctx, res, cls)"):
         RC.check_record_counters(ctx, res, cls)
     with res.guard("RC.check_weight_accumulation_guarded(ctx, res, cls)"):
@@ -178,6 +180,12 @@ def run_container(ctx, prop: str, cls: str) -> Result:
         if name in ctx.methods(cls):
             with res.guard(f"M.check_none_tests({cls}.{name}, metadata / weight / time)"):
                 M.check_none_tests(ctx, res, f"{cls}.{name}", params=("metadata", "weight", "time"))
+    # ---- private helpers that receive the order / size filter (`_edges_by_role(adj, node, order, size)`): the filter value 0 is
+    #      legitimate there as well (`order = order or ...` drops the order-0 filter)
+    for name, mfi in sorted(ctx.methods(cls).items()):
+        if name.startswith("_") and not name.startswith("__") and name not in FILTER_METHODS and {a.arg for a in mfi.params} & {"order", "size"}:
+            with res.guard(f"M.check_none_tests({cls}.{name})"):
+                M.check_none_tests(ctx, res, f"{cls}.{name}", params=("order", "size"))
     # ---- filtered queries: comparison shapes, exclusion guard, None tests, forwarding
     for name in FILTER_METHODS:
         if name in ctx.methods(cls):
